@@ -1612,19 +1612,24 @@ pub mod verif {
     }
 
     /// Public wrapper of the crate-private pruner [`Worker`].
-    pub struct VerifPrunerWorker<S: Store + 'static, B: Blockstore + 'static>(Worker<S, B>);
+    pub struct VerifPrunerWorker<S: Store + 'static, B: Blockstore + 'static>(
+        Worker<S, B>,
+        crate::events::EventChannel,
+    );
 
     impl<S: Store + 'static, B: Blockstore + 'static> VerifPrunerWorker<S, B> {
-        /// `Worker::new` with the given mocked `Daser`; returns the worker and the token that stops `run`.
+        /// `Worker::new` with the given mocked `Daser` and an event channel owned by the wrapper;
+        /// returns the worker, the token that stops `run` and a subscriber to the worker's events.
         pub fn new(
             daser: &VerifMockDaser,
             store: Arc<S>,
             blockstore: Arc<B>,
-            events: &crate::events::EventChannel,
             block_time: Duration,
             pruning_window: Duration,
             sampling_window: Duration,
-        ) -> (Self, CancellationToken) {
+        ) -> (Self, CancellationToken, crate::events::EventSubscriber) {
+            let events = crate::events::EventChannel::new();
+            let subscriber = events.subscribe();
             let token = CancellationToken::new();
             let worker = Worker::new(
                 PrunerArgs {
@@ -1638,7 +1643,7 @@ pub mod verif {
                 },
                 token.child_token(),
             );
-            (VerifPrunerWorker(worker), token)
+            (VerifPrunerWorker(worker, events), token, subscriber)
         }
 
         pub async fn get_next_prunable_batch(
@@ -1679,6 +1684,14 @@ pub mod verif {
             let mut v: Vec<u64> = self.0.cache.block_info.keys().copied().collect();
             v.sort();
             v
+        }
+
+        /// After `run` was stopped through its token: give the worker a fresh (uncancelled) token
+        /// so that `run` can be called again on the same worker state.  Returns the new stop token.
+        pub fn renew_token(&mut self) -> CancellationToken {
+            let token = CancellationToken::new();
+            self.0.cancellation_token = token.child_token();
+            token
         }
     }
 }
